@@ -114,10 +114,24 @@ def body(ctx):
         spec = dict(seed=off, maxdata=4096, rid='plus', frag='whole', ops=[dict(api='pull', path='/f', size=17, data_sizes=[11, 6], cuts=[off], dest='bytesio')])
         for mode in ('sync', 'async'):
             runs.append((mode, spec) + run_with_inert(spec, mode))
+    # a transfer aborted half-way (local disk error / the device falls silent in the middle of a record), then another one on the same
+    # object, with and without close()+connect() in between: nothing of the aborted transfer may show up in the next
+    k2 = 0
+    for first in (dict(api='pull', path='/a1', size=9000, explicit_sizes=[3000, 3000, 3000], cuts='whole', dest=['raise', 1]),
+                  dict(api='pull', path='/a2', size=9000, explicit_sizes=[3000, 3000, 3000], cuts='whole', dest=['raise', 2]),
+                  dict(api='pull', path='/a3', size=9000, explicit_sizes=[4000, 5000], cuts=[8 + 1500], budget=3, read_timeout_s=1.0),
+                  dict(api='pull', path='/a4', size=9000, explicit_sizes=[4000, 5000], cuts=[4], budget=3, read_timeout_s=1.0),
+                  dict(api='push', path='/a5', size=9000, src='bytesio', mtime=3, budget=2, read_timeout_s=1.0)):
+        for between in ([], [dict(api='reconnect')], [dict(api='reconnect', close_first=False)]):
+            for second in (dict(api='pull', path='/b', size=5000, explicit_sizes=[5000], dest='bytesio'), dict(api='pull', path='/c', size=10, dest='bytesio', cb='ok')):
+                k2 += 1
+                spec = dict(seed=900 + k2, maxdata=4096, rid='plus', frag='whole', ops=[dict(first)] + [dict(b) for b in between] + [dict(second)])
+                for mode in ('sync', 'async'):
+                    runs.append((mode, spec) + run_with_inert(spec, mode))
     for j in range(40 if ctx.quick else 800):
         size = rng.choice([0, 1, 7, 8, 9, 65535, 65536, 65537, rng.randint(0, 300000)] + ([rng.randint(1000000, 4000000)] if j % 13 == 0 else []))
         spec = dict(seed=ctx.seed * 13 + j, maxdata=rng.choice([4096, 65536, 1024 * 1024]), rid='random', frag=rng.choice(['whole', 'random', 'empty'] if size < 50000 else ['whole']),
-                    ops=[dict(api='pull', path='/p', size=size, data_sizes=rng.choice([None, 'random']), cuts=rng.choice(['whole', 'random', 'small'] if size < 20000 else ['whole', 'random']),
+                    ops=[dict(api='pull', path=rng.choice(['/p', '/sdcard/éa', '/фото.jpg', '/€']), path_bytes=rng.random() < 0.3, size=size, data_sizes=rng.choice([None, 'random']), cuts=rng.choice(['whole', 'random', 'small'] if size < 20000 else ['whole', 'random']),
                               dest=rng.choice(['bytesio', 'path']), cb=rng.choice([None, 'ok', 'raise', 'raise_base']))])
         mode = ('sync', 'async')[j % 2]
         runs.append((mode, spec) + run_with_inert(spec, mode))
